@@ -169,8 +169,8 @@ class DIMSEMessage(object):
 
     @data_set.setter
     def data_set(self, value):
-        if value:
-            self.command_set.CommandDataSetType = 0x0001
+        # keep dataset type in sync when message is reused with and without dataset
+        self.command_set.CommandDataSetType = 0x0001 if value else NO_DATASET
         self._data_set = value
 
     def encode(self, pc_id, max_pdu_length):
